@@ -1244,6 +1244,79 @@ pub fn c12(thorough: bool, seed: u64) -> CheckOutput {
             }
         }
     }
+    // the same vocabulary must be reachable from fuzzer bytes (generate_from_arbitrary): random
+    // 4 KiB inputs, recipe-steered inputs and short greedy "X whenever offered" inputs for every
+    // opcode X, all with the two opt-in flags on
+    {
+        let n_rand = if thorough { 30_000usize } else { 3_000 };
+        let pairs = deep_pairs();
+        let n_pairs = pairs.len();
+        let pairs_ref = &pairs;
+        let per_proto = 2 * n_rand + n_pairs;
+        let fz: BTreeMap<(u8, &'static str), u64> = par_run(
+            6 * per_proto,
+            BTreeMap::new,
+            |i, m: &mut BTreeMap<(u8, &'static str), u64>| {
+                let proto = (i % 6) as u8;
+                let k = i / 6;
+                let base = Config {
+                    ext: true,
+                    buf: true,
+                    ..Config::default_for(proto, Entropy::Bytes(vec![]))
+                };
+                let cfg = if k < n_rand {
+                    let mut rng = Rng::new(mix(seed ^ 0xF022, i as u64));
+                    Config {
+                        entropy: Entropy::Bytes(rng.bytes(4096)),
+                        ..base
+                    }
+                } else if k < 2 * n_rand {
+                    object_heavy(&base, mix(seed ^ 0xF023, i as u64))
+                } else {
+                    let (x, y) = pairs_ref[k - 2 * n_rand];
+                    steer(&base, 24, 2, i as u64, |_d, p| greedy_policy(x, y)(0, &p.valid))
+                };
+                if let Outcome::Ok(b) = run_case(&cfg, None).outcome {
+                    for ins in crate::lexer::lex_lenient(&b) {
+                        *m.entry((proto, ins.op.name)).or_insert(0) += 1;
+                    }
+                }
+            },
+            |a, b| {
+                for (k, v) in b {
+                    *a.entry(k).or_insert(0) += v;
+                }
+            },
+        );
+        acc.count("fuzzer_bytes_census_inputs", (6 * per_proto) as u64);
+        let mut rarest: Option<(u64, String)> = None;
+        for proto in 0..6u8 {
+            for row in OPTABLE {
+                if row.proto > proto {
+                    continue;
+                }
+                let cnt = fz.get(&(proto, row.name)).copied().unwrap_or(0);
+                if rarest.as_ref().map_or(true, |(c, _)| cnt < *c) {
+                    rarest = Some((cnt, format!("P{}:{}", proto, row.name)));
+                }
+                if cnt == 0 {
+                    let msg = format!(
+                        "opcode {} never occurs for protocol {} on the fuzzer-bytes entry point ({} inputs: random, recipe-steered and greedy-steered, opt-in flags on) although it occurs for PRNG seeds",
+                        row.name, proto, per_proto
+                    );
+                    acc.violate(Violation {
+                        property: "C12".into(),
+                        signature: format!("C12:fuzz_dead:{}:P{}", row.name, proto),
+                        message: msg.clone(),
+                        replay: json!({"kind": "c12", "property": "C12", "proto": proto, "opcode": row.name, "entry_point": "generate_from_arbitrary", "message": msg}),
+                    });
+                }
+            }
+        }
+        if let Some((c, n)) = rarest {
+            acc.count(&format!("fuzzer_bytes_census_rarest_pair_{}", n.replace(':', "_")), c);
+        }
+    }
     let optin = ["EXT1", "EXT2", "EXT4", "NEXT_BUFFER", "READONLY_BUFFER"];
     let mut witnesses = serde_json::Map::new();
     let mut rarest: Option<(u64, String)> = None;
